@@ -170,7 +170,12 @@ impl Oplog {
                         get_slices_checked(&existing, OplogSlot::Entries as usize)?.1;
                     let mut entries: Vec<Entry> = Vec::new();
                     let mut partials: Vec<bool> = Vec::new();
+                    let header_bit = outcome.oplog.get_current_header_bit();
                     while let Some(entry_outcome) = Self::validate_leader(entries_buff)? {
+                        if entry_outcome.header_bit != header_bit {
+                            // Entry written before the current header: already part of it
+                            break;
+                        }
                         let res = Entry::decode(entry_outcome.state)?;
                         entries.push(res.0);
                         entries_buff = res.1;
